@@ -1,8 +1,14 @@
 """Property -> rules.  A rule is evaluated by every property whose statement it is a necessary
 condition of (DESIGN §4 'Shared obligations')."""
-from . import successor, attack, uci_rules, draw, fen, search
+from . import successor, attack, uci_rules, draw, fen, search, modes, hash
 
 RULES = {
+    "R5.1": ("each helper keeps key and state in step on every path: swap_color, take_away_castling_rights, unset_pawn_double_move, move_piece", hash.r5_1),
+    "R5.2": ("every raw write of a hashed component outside the helpers has its XOR in the same control region, and every XOR term has its write (R5.3)", hash.r5_2),
+    "R5.4": ("from_fen builds the key from scratch: piece, side, en-passant file and castling terms each under exactly its own condition", hash.r5_4),
+    "R5.5": ("key getters are injective: kind index bijection, colour offset, castling variant->field table, constant seed", hash.r5_5),
+    "R5.c": ("positive control: the raw-write matcher sees the null-move to_move write", hash.r5_positive_control),
+    "R13.1": ("no successor-construction event (helper call, field write, publish) is control-dependent on a branch that is a pure function of the generation mode", modes.r13_1),
     "R7.1": ("in get_best_move every accept site (best_move, send, alpha update, info, PV) is dominated by the not-expired edge of an out_of_time(start,t) re-read after alpha_beta_search; the only other send is the fallback (R7.3)", search.r7_1),
     "R7.2": ("the abort sentinel is returned only under the entry clock test, which dominates every recursive call and table event; out_of_time is a pure clock comparison", search.r7_2),
     "R10.5": ("add/remove on the repetition table balance on every exit of alpha_beta_search; test precedes add; no table events elsewhere in the search", search.r10_5),
@@ -18,20 +24,23 @@ RULES = {
     "R1.1": ("every published successor passed a legality gate (is_check false edge for the mover's colour, or can_castle) with no board mutation afterwards", successor.r1_1),
     "R2.1": ("at every publish last_move and pawn_promotion have been written on that successor", successor.r2_1),
     "R2.2": ("at every publish the side to move was swapped exactly once", successor.r2_2),
+    "R2.4": ("a successor whose move leaves or lands on a rook home corner has lost that corner's right; a king move loses both rights of its colour (path feasibility under the hypothesis from/to == corner)", successor.r2_4),
     "R2.3": ("at every publish the en-passant target was resolved for this move", successor.r2_3),
     "R5.2e": ("an en-passant target is set on a successor only after the inherited one was cleared (EpClear)", successor.r5_2_epclear),
 }
 
 QUICK = {
-    "C01": ["R1.1", "R1.3"],
-    "C02": ["R2.1", "R2.2", "R2.3"],
-    "C05": ["R5.2e"],
+    "C01": ["R1.1", "R1.3", "R2.1", "R2.2", "R2.3", "R2.4"],
+    "C02": ["R2.1", "R2.2", "R2.3", "R2.4"],
+    "C05": ["R5.1", "R5.2", "R5.2e", "R5.4", "R5.5", "R5.c"],
+    "C04": ["R5.2", "R5.2e", "R2.1"],
     "C03": ["R3.2"],
     "C07": ["R7.1", "R7.2", "R10.5"],
     "C08": ["R8.1"],
     "C11": ["R11.1"],
     "C12": ["R12.1"],
     "C10": ["R10.3", "R10.5"],
+    "C13": ["R13.1", "R2.3", "R1.1", "R2.4"],
     "C15": ["R15.1", "R15.2"],
     "C17": ["R17.3"],
 }
